@@ -259,7 +259,7 @@ def quick_unsat(hyps, timeout_ms=250, full=False):
             if _GROUND_CACHE[k]:
                 g.append(h)
         s = z3.Solver()
-        s.set('timeout', 100)
+        s.set('timeout', 3000)      # quantifier-free: normally milliseconds; the cap only matters under heavy load
         for h in g:
             s.add(h)
         r = s.check()
